@@ -92,6 +92,8 @@ class Comparer:
         self.hook_a: Optional[Callable] = None    # side-specific fact hooks: f(facts) -> extra facts
         self.hook_b: Optional[Callable] = None
         self.extra_params_a: Set[str] = set()
+        self.return_map: Optional[Callable] = None   # transformation applied to side b's returned term
+        self.skip_signature = False
         for s in (a, b):
             if s.body is None:
                 bld = IRBuilder()
@@ -145,11 +147,13 @@ class Comparer:
             env.lens[('n', nm)] = fn(env)
         for nm, v in side.init.items():
             env.vals[nm] = v
+        env.negated = set(side.negate)
         return env
 
     def run(self):
         ea, eb = self.make_env(self.a), self.make_env(self.b)
-        self.compare_params()
+        if not self.skip_signature:
+            self.compare_params()
         try:
             self.seq(self.a.body, self.b.body, ea, eb, {}, {}, [], set(), set())
         except CanonError as e:
@@ -245,15 +249,16 @@ class Comparer:
                 env.unset(tgt.id)
                 env.versions.pop(cn, None)
                 return
-            if cn in side.negate:
-                val = C.neg(C.to_poly(val))
             env.set(tgt.id, val)
             reg.assigned[cn] = st
             if cn in side.ignore:
                 reg.outputs.setdefault(cn, []).append((None, val, st))
             return
         if isinstance(tgt, ast.Subscript):
-            base = C.canon_expr(tgt.value, env)
+            if isinstance(tgt.value, ast.Name) and env.cn(tgt.value.id) in env.negated and env.cn(tgt.value.id) not in env.vals:
+                base = C.atom(('n', env.cn(tgt.value.id)))
+            else:
+                base = C.canon_expr(tgt.value, env)
             bsa = C.single_atom(base) if C.is_poly(base) else base
             if bsa is None:
                 raise Inconclusive(f"{self.loc(side, st)}: store into computed base")
@@ -263,7 +268,7 @@ class Comparer:
             rootname = root[1] if root[0] == 'n' else C.show(root)
             key = C.show(bsa)
             sl = tgt.slice
-            neg_it = rootname in side.negate
+            neg_it = False
             if isinstance(sl, ast.Slice):
                 if sl.step is not None:
                     idx = C.canon_expr(tgt, env)
@@ -395,6 +400,9 @@ class Comparer:
                           na, nb, '; '.join(self._show_rec(r) for r in la) or '-',
                           '; '.join(self._show_rec(r) for r in lb) or '-', ctx)
                 continue
+            rootk = key.split('[')[0]
+            if rootk in self.b.negate:
+                lb = [(r[0],) + tuple(r[1:-2]) + (C.neg(r[-2]) if C.is_poly(r[-2]) else r[-2], r[-1]) for r in lb]
             for x, y in zip(la, lb):
                 if x[0] != y[0]:
                     self.points += 1
@@ -444,7 +452,9 @@ class Comparer:
                 continue
             in_a, in_b = cn in asg_a, cn in asg_b
             va = ea.vals.get(cn, C.atom(('n', cn)))
-            vb = eb.vals.get(cn, C.atom(('n', cn)))
+            vb = eb.vals.get(cn, C.neg(C.atom(('n', cn))) if cn in self.b.negate else C.atom(('n', cn)))
+            if cn in self.b.negate:
+                vb = C.neg(C.to_poly(vb))
             if self.eq(va, vb, fa, fb):
                 continue
             if cn not in live:
@@ -579,9 +589,8 @@ class Comparer:
         if self.a.ignore or self.b.ignore:
             self.points += 1
             return
-        if self.a.negate or self.b.negate:
-            va = self._neg_return(va, self.a)
-            vb = self._neg_return(vb, self.b)
+        if self.return_map is not None:
+            vb = self.return_map(vb)
         if not self.eq(va, vb, fa, fb):
             self.mism('return', 'returned value differs', xa[-1], xb[-1], self.norm(va, fa), self.norm(vb, fb), ctx)
 
